@@ -27,7 +27,7 @@ RecU(sec) ==
     \cup {Rec(sec, UName(5), "BIG", <<>>, <<>>, BigLen, 1) : x \in (IF BigLen > 0 THEN {1} ELSE {})}
 Questions == {[name |-> n, type |-> TyA, cls |-> ClsIN] : n \in Owners \cap {UName(2), UName(4)}}
 Opt0 == MkOpt(1232, <<0, 0>>, <<>>)
-Opt1 == MkOpt(4096, OptTtl(2561, 0, 32768), <<<<10, 8, 7>>>>)     \* ext rcode, DO, one option
+Opt1 == MkOpt(4096, OptTtl(2561, 0, 32768), <<<<10, Fill(8, 7)>>>>)     \* ext rcode, DO, one option
 KeyName == <<<<107>>, lex>>                                         \* k.ex.
 Alg == <<<<104>>>>                                                  \* "h." stands for the algorithm name
 Tsig0 == MkTsig(KeyName, Alg, <<0, 0, 0, 0, 0, 9>>, 300, Fill(4, 85), 4660, 0, <<>>)
